@@ -323,6 +323,11 @@ func vkECSPolicies(thorough bool) []vkECSPolicy {
 		}
 	}
 	out = append(out, vkECSPolicy{Enabled: true, V4: 24, V6: 56, Min4: 20, Min6: 48}, vkECSPolicy{Enabled: true, V4: 24, Min4: 40})
+	// unparsable client_networks entries of every shape: blank, whitespace, out-of-range prefix length,
+	// padded with spaces, alone or next to a valid one — each makes the whole configuration invalid
+	for _, n := range [][]string{{""}, {"  "}, {"10.0.0.0/8", ""}, {"", "10.0.0.0/8"}, {"10.0.0.0/33"}, {" 10.0.0.0/8"}, {"10.0.0.0/8 "}, {"10.0.0.0"}, {"::/129"}} {
+		out = append(out, vkECSPolicy{Enabled: true, V4: 24, V6: 56, Nets: n})
+	}
 	return out
 }
 
